@@ -135,6 +135,23 @@ def _mdp_case(case, rng):
                    "calc_returns!=backward-recursion",
                    lambda: f"gamma={g2} n={len(seq)}: first mismatch {[(i, float(g), r) for i, (g, r) in enumerate(zip(got, ref)) if not abs(g - r) <= 1e-10 * max(1.0, abs(r))][:2]!r}")
 
+    # ---- a policy whose action distributions are updated IN PLACE between roll-outs (policy improvement loops) ----
+    if kind == "functional" and not det_case:
+        live = {s_: DictDistribution(dict(pol[s_])) for s_ in sp.states}
+        fp2 = FunctionalPolicy(lambda s_: live[s_])
+        r1 = case.call("Policy.run_on(before update)", fp2.run_on, mdp, max_steps=20, rng=_random.Random(rng.randrange(2 ** 31)))
+        newpol = {}
+        for s_ in sp.states:
+            keys = list(live[s_].keys())
+            keep = rng.choice(keys)
+            for a_ in keys:
+                live[s_][a_] = 1.0 if a_ == keep else 0.0
+            newpol[s_] = keep
+        r2 = case.call("Policy.run_on(after update)", fp2.run_on, mdp, max_steps=20, rng=_random.Random(rng.randrange(2 ** 31)))
+        case.count("rollouts_after_inplace_policy_update")
+        if r2 is not case.FAIL:
+            bad = [(st["state"], st["action"]) for st in list(r2.steps)[:-1] if st["action"] != newpol[st["state"]]]
+            case.check(not bad, "rollout:action-has-zero-probability-under-the-updated-policy", lambda: f"{bad[:3]!r}")
     # ---- Monte-Carlo evaluation --------------------------------------------------------------------------
     nsim = rng.choice([1, 3, 20])
     cap = rng.choice([1, 2, 5, 50])
